@@ -448,7 +448,7 @@ func TestVerifC09Filter(t *testing.T) {
 				continue
 			}
 			in.Ops = append(in.Ops, c09fOp{Op: "handle", Gen: -1, Dt: dt,
-				Method: r.PickStr("GET", "GET", "POST", "PUT"), Path: r.PickStr("/a", "/a", "/b", "/a/b", "/b/x", "/c", "/aa", "/zzb")})
+				Method: r.PickStr("GET", "GET", "POST", "PUT"), Path: r.PickStr("/a", "/a", "/b", "/a/b", "/b/x", "/c", "/aa", "/zzb", "/a%2Fb", "/%61", "/b%2Fx", "/a%2fb", "/b/%78", "/a/b%3Fq", "/c%20")})
 		}
 		out.Emit(vfCase{ID: fmt.Sprintf("%s-flt-%d", src, i), Src: src, Grp: "flt", In: in, Obs: c09fRun(in)})
 	}
